@@ -1406,7 +1406,8 @@ def stub(cfg):
     allb, alla = def_binders(cfg)
     return ("/-- stands for the unreadable `%s` in the definitions that call it: the reviewed text (their obligations are judged on\n"
             "    their own lines; `srcShape_%s_recognised` above is the broken obligation) -/\n"
-            "def %s %s :\n    Except Err (SFig α) :=\n  %s.%s %s" % (cfg["func"], cfg["lean"], cfg["lean"], allb, REF, cfg["lean"], alla))
+            "def %s %s :\n    Except Err (SFig α) :=\n  %s.%s %s" % (cfg["func"], cfg["lean"], cfg["lean"], allb, REF, cfg["lean"],
+                                                                      " ".join(list(cfg.get("calls", [])) + [alla])))
 
 
 # the landscape objects: the attributes the plots read, the type of an item of `enumerate(landscape)`
